@@ -23,7 +23,7 @@ fn strat(bits: usize) -> BoxedStrategy<Case> {
         (0..=n).prop_map(move |k| mask_vec((0..n).map(|i| if i >= k { u64::MAX } else { 0 }).collect(), bits)),
     ];
     let val = prop_oneof![3 => uint(bits), 1 => extra];
-    (val.clone(), val, index_around(bits, 64), index_around(bytes, 8), any::<bool>(), 0u8..8)
+    (val.clone(), val, index_any(bits, 64), index_any(bytes, 8), any::<bool>(), 0u8..8)
         .prop_map(move |(a, b, i, j, sv, rel)| {
             // related operands: equal, complementary
             let b = match rel {
@@ -76,11 +76,12 @@ fn body<const B: usize, const L: usize>(c: &Case, rec: &mut Rec) -> R {
     let bytes_len = (B + 7) / 8;
 
     let limb_scan = a.as_limbs().iter().any(|x| *x == 0 || *x == u64::MAX);
-    let near_boundary = idx % 64 <= 1 || idx % 64 == 63 || (idx as i64 - B as i64).abs() <= 1;
+    let near_boundary = idx % 64 <= 1 || idx % 64 == 63 || (idx as i128 - B as i128).abs() <= 1;
     rec.class_if(limb_scan, "limb_zero_or_all_ones");
     rec.class_if(idx >= B, "index_out_of_range");
     rec.class_if(bidx >= bytes_len, "byte_index_out_of_range");
     rec.class_if(near_boundary, "index_near_boundary");
+    rec.class_if(idx >= 1 << 32 || bidx >= 1 << 32, "index_huge");
     if limb_scan || near_boundary {
         rec.nontrivial(&(&c.l[0], &c.l[1], idx, bidx));
     }
@@ -172,7 +173,7 @@ fn body<const B: usize, const L: usize>(c: &Case, rec: &mut Rec) -> R {
 fn main() {
     let spec = PropSpec {
         id: "C06",
-        rule_text: "cases (a, b, bit index in [0,BITS+64], byte index in [0,BYTES+8], bool) per width; values from the boundary alphabet plus MAX-2^k, alternating patterns, all-ones low/high limb runs; indices biased to limb boundaries and BITS+-1; exhaustive for BITS <= 8: all (a,b) pairs and all (a, index, bool) triples. Oracle: bit-level definitions over exactly BITS bits evaluated in num-bigint. Non-trivial: some limb of a is 0 or u64::MAX (limb-scan paths) or the index is within 1 of a limb boundary or of BITS; distinct by (width,a,b,indices).",
+        rule_text: "cases (a, b, bit index in [0,BITS+64], byte index in [0,BYTES+8], bool) per width; values from the boundary alphabet plus MAX-2^k, alternating patterns, all-ones low/high limb runs; indices biased to limb boundaries and BITS+-1, one in seven huge (k*2^61+j, k*2^58+j, 2^e+j, usize::MAX-j: values whose scaling by 8 or 64, increment or narrowing wraps to something small); exhaustive for BITS <= 8: all (a,b) pairs and all (a, index, bool) triples. Oracle: bit-level definitions over exactly BITS bits evaluated in num-bigint. Non-trivial: some limb of a is 0 or u64::MAX (limb-scan paths) or the index is within 1 of a limb boundary or of BITS; distinct by (width,a,b,indices).",
         assumptions: vec![
             "num-bigint bit operations are correct (oracle)",
             "little-endian target for byte() (the cfg(target_endian = \"big\") arm is never compiled here)",
